@@ -1,4 +1,5 @@
 import RSVerif.Model.Dump
+import RSVerif.Model.Tee
 import RSVerif.Lemmas.Crc64
 import RSVerif.Lemmas.Bytes
 /-
@@ -51,6 +52,107 @@ example : Crc64.writes [[1,2],[],[3]] = crc64 [1,2,3] := hash_writes _
 
 /-- `Sum(nil)` is the little-endian rendering and determines the state. -/
 theorem sum_le (crc : UInt64) : ofLe64 (Crc64.sum crc) = crc := ofLe64_le64 crc
+
+/-! ### 2b. The running checksum of the loader does not depend on how the source delivers its bytes
+
+`Model/Tee.lean`: the loader reads through `io.ReadFull` over a tee into the digest; the source hands its bytes out in
+pieces of its own choosing. Whatever the pieces — network segments, bufio refills, one byte at a time, empty reads, a last
+piece together with EOF — a request for `n` bytes returns the next `n` bytes of the stream, leaves exactly the rest, and
+has fed exactly those `n` bytes into the CRC, each once. -/
+
+theorem readFull_spec : ∀ (ps : List Bytes) (n : Nat) (crc : UInt64),
+    (n ≤ ps.flatten.length →
+      ∃ ps', Tee.readFull n ps crc = some (ps.flatten.take n, ps', update crc (ps.flatten.take n)) ∧
+        ps'.flatten = ps.flatten.drop n) ∧
+    (ps.flatten.length < n → Tee.readFull n ps crc = none)
+  | [], n, crc => by
+    cases n with
+    | zero => exact ⟨fun _ => ⟨[], by simp [Tee.readFull, update], by simp⟩, fun h => by simp at h⟩
+    | succ n => exact ⟨fun h => by simp at h, fun _ => by simp [Tee.readFull]⟩
+  | pc :: ps, n, crc => by
+    cases n with
+    | zero =>
+      exact ⟨fun _ => ⟨pc :: ps, by simp [Tee.readFull, update], by simp⟩, fun h => by simp at h⟩
+    | succ n =>
+      by_cases hle : pc.length ≤ n + 1
+      · have ih := readFull_spec ps (n + 1 - pc.length) (Crc64.digestUpdate crc pc)
+        constructor
+        · intro hn
+          have hn' : n + 1 - pc.length ≤ ps.flatten.length := by
+            simp only [List.flatten_cons, List.length_append] at hn; omega
+          obtain ⟨ps', hr, hfl⟩ := ih.1 hn'
+          refine ⟨ps', ?_, ?_⟩
+          · simp only [Tee.readFull, hle, if_true, hr, List.flatten_cons]
+            have ht : (pc ++ ps.flatten).take (n + 1) = pc ++ ps.flatten.take (n + 1 - pc.length) := by
+              rw [List.take_append]; simp [List.take_of_length_le hle]
+            rw [ht, update_append, digest_eq_spec]
+          · simp only [List.flatten_cons]
+            rw [hfl, List.drop_append]
+            simp [List.drop_eq_nil_of_le hle]
+        · intro hn
+          have hn' : ps.flatten.length < n + 1 - pc.length := by
+            simp only [List.flatten_cons, List.length_append] at hn; omega
+          simp only [Tee.readFull, hle, if_true, ih.2 hn']
+      · have hlt : n + 1 < pc.length := by omega
+        constructor
+        · intro _
+          refine ⟨pc.drop (n + 1) :: ps, ?_, ?_⟩
+          · simp only [Tee.readFull, hle, if_false, List.flatten_cons]
+            have ht : (pc ++ ps.flatten).take (n + 1) = pc.take (n + 1) := by
+              rw [List.take_append]; simp [Nat.sub_eq_zero_of_le (Nat.le_of_lt hlt)]
+            rw [ht, digest_eq_spec]
+          · simp only [List.flatten_cons]
+            rw [List.drop_append]
+            simp [Nat.sub_eq_zero_of_le (Nat.le_of_lt hlt)]
+        · intro hn
+          simp only [List.flatten_cons, List.length_append] at hn
+          omega
+
+/-- two deliveries of the same byte stream: the same bytes come back and the digest is in the same state -/
+theorem readFull_delivery_independent (ps qs : List Bytes) (h : ps.flatten = qs.flatten) (n : Nat) (crc : UInt64) :
+    (Tee.readFull n ps crc).map (fun r => (r.1, r.2.2)) = (Tee.readFull n qs crc).map (fun r => (r.1, r.2.2)) := by
+  by_cases hn : n ≤ ps.flatten.length
+  · obtain ⟨ps', hp, _⟩ := (readFull_spec ps n crc).1 hn
+    obtain ⟨qs', hq, _⟩ := (readFull_spec qs n crc).1 (h ▸ hn)
+    rw [hp, hq, h]; rfl
+  · have hp := (readFull_spec ps n crc).2 (by omega)
+    have hq := (readFull_spec qs n crc).2 (by rw [← h]; omega)
+    rw [hp, hq]
+
+/-- after any sequence of requests that the stream can satisfy, the digest is the CRC-64 of exactly the bytes handed out
+    so far, in order, each once — the value `Footer()` compares with the trailer -/
+theorem readAll_crc : ∀ (ns : List Nat) (ps : List Bytes) (crc : UInt64) (bs : List Bytes) (ps' : List Bytes) (c : UInt64),
+    Tee.readAll ns ps crc = some (bs, ps', c) →
+      bs.flatten = ps.flatten.take ns.sum ∧ ps'.flatten = ps.flatten.drop ns.sum ∧ c = update crc bs.flatten
+  | [], ps, crc, bs, ps', c, h => by
+    simp only [Tee.readAll, Option.some.injEq, Prod.mk.injEq] at h
+    obtain ⟨rfl, rfl, rfl⟩ := h
+    simp [update]
+  | n :: ns, ps, crc, bs, ps', c, h => by
+    simp only [Tee.readAll] at h
+    by_cases hn : n ≤ ps.flatten.length
+    · obtain ⟨p1, hr, hfl⟩ := (readFull_spec ps n crc).1 hn
+      rw [hr] at h
+      simp only [] at h
+      cases hrest : Tee.readAll ns p1 (update crc (ps.flatten.take n)) with
+      | none => simp [hrest] at h
+      | some r =>
+        obtain ⟨bs2, p2, c2⟩ := r
+        simp only [hrest, Option.some.injEq, Prod.mk.injEq] at h
+        obtain ⟨rfl, rfl, rfl⟩ := h
+        obtain ⟨h1, h2, h3⟩ := readAll_crc ns p1 _ bs2 p2 c2 hrest
+        refine ⟨?_, ?_, ?_⟩
+        · simp only [List.flatten_cons, List.sum_cons, h1, hfl]
+          rw [List.take_add]
+        · rw [h2, hfl, List.drop_drop, List.sum_cons]
+        · rw [h3, List.flatten_cons, update_append]
+    · rw [(readFull_spec ps n crc).2 (by omega)] at h
+      simp at h
+
+/-- three pieces with an empty read in between vs. one segment -/
+example : (Tee.readFull 3 [[1], [], [2, 3, 4]] 0).map (fun r => (r.1, r.2.2)) =
+    (Tee.readFull 3 [[1, 2, 3, 4]] 0).map (fun r => (r.1, r.2.2)) :=
+  readFull_delivery_independent [[1], [], [2, 3, 4]] [[1, 2, 3, 4]] (by decide) 3 0
 
 /-! ### 3. Any single-byte substitution changes the CRC -/
 
